@@ -154,9 +154,21 @@ def check(d, root, flist, case, ch=None, public=False):
         return out
     # (4) metamorphic relations
     if ch is not None:
-        m = ch.int(0, 5)
+        m = ch.int(0, 6)
         try:
-            if m == 5:
+            if m == 6:
+                # the verdict does not depend on how much the library is asked to log
+                import logging
+
+                lg = logging.getLogger("mappyfile")
+                old_level = lg.level
+                lg.setLevel(logging.DEBUG)
+                try:
+                    got2 = names_of(validate_any(copy.deepcopy(d), root))
+                finally:
+                    lg.setLevel(old_level)
+                rel = "DEBUG logging switched on"
+            elif m == 5:
                 # both clauses at once: a list of roots, one of them with its values (its __type__ too) in another case
                 W = env.Workers.get()
                 got2 = names_of(W.validator().validate([recase_values(d, ch), copy.deepcopy(d)], schema_name=root))
